@@ -23,9 +23,45 @@ W.contract(Contract('NTF.add_transition', PAR, ret=TInt, modifies=('self',),
 W.contract(Contract('NTF.remove_transition', PAR, ret=TInt, modifies=('self',),
     ensures=lambda o, r, n: And(r.term == If(view(o.self)(o.s_from.term, o.symb_by.term, o.s_to.term), 1, 0),
         ForAll([p, a, q], view(n.self)(p, a, q) == And(view(o.self)(p, a, q), Not(is_edge(o, p, a, q)))))))
+from contracts.fa import NONE_SY
 W.contract(Contract('NTF.__call__', PAR[:3], ret=SetSt,
-    requires=lambda o: BoolVal(True),
+    requires=lambda o: o.symb_by.term != NONE_SY,          # the one-argument form (symb_by=None: all items of a state) is outside the model
     ensures=lambda o, r, n: ForAll([q], r[q] == view(o.self)(o.s_from.term, o.symb_by.term, q))))
 W.contract(Contract('NTF.is_deterministic', [('self', NTF)], ret=TBool,
     ensures=lambda o, r, n: r.term == ForAll([p, a, q, r_], Implies(And(view(o.self)(p, a, q), view(o.self)(p, a, r_)), q == r_)),
-    loops={}))
+    loops={'0': lambda e, done: ForAll([p, a, q, r_], Implies(And(done[p], view(e.self)(p, a, q), view(e.self)(p, a, r_)), q == r_)),
+           '0.0': lambda e, done: And(ForAll([p, a, q, r_], Implies(And(e.get('$done0')[p], view(e.self)(p, a, q), view(e.self)(p, a, r_)), q == r_)),
+                                      ForAll([a, q, r_], Implies(And(done[a], Select(InnerMap.get(e.transitions, 'dom').term, a),
+                                                                     Select(Select(InnerMap.get(e.transitions, 'val').term, a), q),
+                                                                     Select(Select(InnerMap.get(e.transitions, 'val').term, a), r_)), q == r_)))}))
+
+# ------------------------------------------------------------------ TransitionFunction (deterministic): dict of dict to a single state
+from contracts.fa import SeqSt, NONE_ST
+DInner = TMap(Sy, St); DOuter = TMap(St, DInner)
+DTF = TRec('DTF', [('_transitions', DOuter)])
+def dview(tf):
+    m = tf._transitions
+    def T(pp, aa, qq):
+        inner = Sym(DInner, Select(DOuter.get(m, 'val').term, pp))
+        return And(Select(DOuter.get(m, 'dom').term, pp), Select(DInner.get(inner, 'dom').term, aa), Select(DInner.get(inner, 'val').term, aa) == qq)
+    return T
+DPAR = [('self', DTF), ('s_from', St), ('symb_by', Sy), ('s_to', St)]
+def has_other(o): return Exists([r_], And(dview(o.self)(o.s_from.term, o.symb_by.term, r_), r_ != o.s_to.term))
+W.contract(Contract('DTF.add_transition', DPAR, ret=TInt, modifies=('self',),
+    raises={'InvalidEpsilonTransition': lambda o: o.symb_by == EPS,
+            'DuplicateTransitionError': lambda o: And(o.symb_by.term != EPS, has_other(o))},
+    ensures=lambda o, r, n: And(r.term == 1, ForAll([p, a, q], dview(n.self)(p, a, q) == Or(dview(o.self)(p, a, q), is_edge(o, p, a, q))))))
+W.contract(Contract('DTF.remove_transition', DPAR, ret=TInt, modifies=('self',),
+    ensures=lambda o, r, n: And(r.term == If(dview(o.self)(o.s_from.term, o.symb_by.term, o.s_to.term), 1, 0),
+        ForAll([p, a, q], dview(n.self)(p, a, q) == And(dview(o.self)(p, a, q), Not(is_edge(o, p, a, q)))))))
+W.contract(Contract('DTF.__call__', DPAR[:3], ret=SeqSt, requires=lambda o: o.symb_by.term != NONE_SY,
+    ensures=lambda o, r, n: Or(And(Length(r.term) == 0, ForAll([q], Not(dview(o.self)(o.s_from.term, o.symb_by.term, q)))),
+                               And(Length(r.term) == 1, dview(o.self)(o.s_from.term, o.symb_by.term, r.term[0])))))
+
+_P = 'pyformlang/finite_automaton/nondeterministic_transition_function.py'
+TARGETS = {k: (_P, 'NondeterministicTransitionFunction.' + k.split('.', 1)[1]) for k in
+           ['NTF.add_transition', 'NTF.remove_transition', 'NTF.__call__', 'NTF.is_deterministic']}
+_PT = 'pyformlang/finite_automaton/transition_function.py'
+TARGETS.update({k: (_PT, 'TransitionFunction.' + k.split('.', 1)[1]) for k in ['DTF.add_transition', 'DTF.remove_transition', 'DTF.__call__']})
+
+from contracts.fa import VERIFIED_ELSEWHERE
